@@ -15,7 +15,6 @@
 package dicescript
 
 import (
-	"errors"
 	"fmt"
 	"strings"
 	"unicode/utf8"
@@ -55,9 +54,41 @@ func init() {
 	ErrorFormatter = formatFriendlyError
 }
 
-// SetParseErrorLanguage 设置解析错误消息的语言
+// SetParseErrorLanguage 设置解析错误消息的默认语言
+// Context.Parse 使用各自的 Config.ParseErrorLanguage，不会修改这个默认值
 func SetParseErrorLanguage(lang int) {
 	parseErrorLanguage = lang
+}
+
+// friendlyParseError 友好的语法错误。语言跟随错误值本身而不是全局变量，
+// 这样多个vm并发解析时互不影响
+type friendlyParseError struct {
+	pos   position
+	input []byte
+	msg   bilingualMsg
+	char  rune
+	lang  int // 小于0时使用 SetParseErrorLanguage 设置的默认语言
+}
+
+func (e *friendlyParseError) Error() string {
+	lang := e.lang
+	if lang < 0 {
+		lang = parseErrorLanguage
+	}
+	return fmtErrText(lang, e.pos, e.input, e.msg, e.char)
+}
+
+// setParseErrorLanguageOf 为 parser 返回的错误指定语言
+func setParseErrorLanguageOf(err error, lang int) {
+	if lst, ok := err.(errList); ok {
+		for _, i := range lst {
+			if pe, ok := i.(*parserError); ok {
+				if fe, ok := pe.Inner.(*friendlyParseError); ok {
+					fe.lang = lang
+				}
+			}
+		}
+	}
 }
 
 // formatFriendlyError 生成友好的错误消息
@@ -118,12 +149,17 @@ func formatFriendlyError(pos position, input []byte, expected []string) error {
 	return fmtErr(pos, input, msg, fmtChar)
 }
 
-// fmtErr 格式化错误输出
+// fmtErr 生成错误值，文本在 Error() 时按语言生成
 func fmtErr(pos position, input []byte, msg bilingualMsg, char rune) error {
+	return &friendlyParseError{pos: pos, input: input, msg: msg, char: char, lang: -1}
+}
+
+// fmtErrText 格式化错误输出
+func fmtErrText(lang int, pos position, input []byte, msg bilingualMsg, char rune) string {
 	var sb strings.Builder
 
 	// 标题
-	switch parseErrorLanguage {
+	switch lang {
 	case ParseErrorLanguageChinese:
 		sb.WriteString("语法错误\n")
 	case ParseErrorLanguageEnglish:
@@ -156,7 +192,7 @@ func fmtErr(pos position, input []byte, msg bilingualMsg, char rune) error {
 	}
 
 	// 位置和消息
-	switch parseErrorLanguage {
+	switch lang {
 	case ParseErrorLanguageChinese:
 		sb.WriteString(fmt.Sprintf("  位置 %d:%d - %s", pos.line, pos.col, cn))
 	case ParseErrorLanguageEnglish:
@@ -166,7 +202,7 @@ func fmtErr(pos position, input []byte, msg bilingualMsg, char rune) error {
 		sb.WriteString(fmt.Sprintf("  Pos %d:%d - %s", pos.line, pos.col, en))
 	}
 
-	return errors.New(sb.String())
+	return sb.String()
 }
 
 // getLineAtBytes 获取指定行的内容
